@@ -116,6 +116,9 @@ out = {}
 out["py"] = pipeline.gen_py(ode, schemes=["explicit_euler", "generalized_rush_larsen"])
 out["c"] = pipeline.gen_c(ode, schemes=["explicit_euler"])
 out["states"] = [s.name for s in ode.sorted_states()]
+out["params"] = [p.name for p in ode.parameters]
+out["inter"] = [p.name for p in ode.intermediates]
+out["jax"] = pipeline.gen_py(ode, backend="jax", schemes=["explicit_euler"], remove_unused=True)
 out["assign"] = [a.name for a in ode.sorted_assignments()]
 print("RESULT" + json.dumps(out))
 '''
@@ -190,6 +193,13 @@ def tasks(tier, seed):
         "parameters(p=1.0, q=2.0)\nstates(x=1.0, y=2.0, z=3.0)\nu = x*y + z\nv = u + p*q + z\ndx_dt = -u\ndy_dt = -v*y\ndz_dt = x - z + u\n",
         "parameters(k=1.0)\nstates(b=1.0, a=2.0, c=3.0)\ndb_dt = a*c*k\nda_dt = b*c\ndc_dt = -a*b\n",
     ]
+    # names that tie under case-folding / stripping / length keys (any sort key weaker than the name itself
+    # falls back to set iteration order, i.e. to the hash seed)
+    extra += [
+        "parameters(K=2.0, k=0.5, a=1.0, A=3.0)\nstates(X=1.0, x=2.0)\nI = K*x\ni = k*X\ndX_dt = -I + a\ndx_dt = -i*A\n",
+        "parameters(g_K=2.0, g_k=0.5, gK=1.0)\nstates(v=1.0, V=2.0, v_=3.0)\nab = g_K*v\nAB = g_k*V\naB = gK*v_\ndv_dt = -ab\ndV_dt = -AB\ndv__dt = -aB\n",
+        "parameters(p1=1.0, p10=2.0, p2=3.0, P1=4.0)\nstates(s1=1.0, s10=2.0, S1=3.0)\nds1_dt = -p1*s1\nds10_dt = -p10*s10 + p2\ndS1_dt = -P1*S1\n",
+    ]
     for t in extra:
         P.append({"family": "ORDER", "id": text_id(t), "text": t, "meta": {}})
     dg = families.dag_family(3, 2)
@@ -237,11 +247,12 @@ def work(task):
     prog.notes.append({"graph": graph, "orders": space, "full_product_symbolic": full})
     # (iii) fresh processes under different hash seeds (replay-level, also a direct reproduction)
     try:
-        outs = [gen_under_seed(task["text"], s) for s in (0, 1, 2, 3)]
+        seeds = (0, 1, 2, 3) if task["family"] != "ORDER" else (0, 1, 2, 3, 4, 5, 6, 7)
+        outs = [gen_under_seed(task["text"], s) for s in seeds]
         same = all(o == outs[0] for o in outs[1:])
         detail = ""
         if not same:
-            detail = f"state order under seeds 0..3: {[o['states'] for o in outs]}"
+            detail = (f"state / parameter order under the seeds: {[o['states'] for o in outs]} / {[o['params'] for o in outs]}")[:400]
         prog.fact("hashseed|bytes-identical", same, "HashSeedDependent",
                   "generated code differs between PYTHONHASHSEED values: " + detail)
     except Exception as e:
